@@ -39,6 +39,9 @@ func checkC16(c *Ctx, r *Report) {
 	// Automatic codes stay clear of every explicit one only if the maximum is taken over all declarations first (C11.a)
 	// and each automatic code is a pre-increment above it (C11.b)
 	includeSome(r, "C16.a", func(sub *Report) { c11a(c, sub); c11b(c, sub) }, "max-scan-before-numbering", "pre-incremented-code")
+	// … and a token's name becomes a Go identifier verbatim: the lexer's identifier class (letters, decimal digits,
+	// `_`) is what makes every accepted name a legal one (C10.d)
+	includeSome(r, "C16.a", func(sub *Report) { c10RootDispatch(c, sub, "C10.d") }, "identifier-continues-over-letters-digits-underscore")
 	nSk := 0
 	for _, sc := range st.Configs {
 		name := "skeleton " + sc.V.Name
